@@ -168,6 +168,22 @@ def gen(seed, tier, want=None):
         if len(n) > len(h) and rng.random() < 0.8:
             n = n[:len(h)]
         emit(lines, cfg, "SPOE" if k % 2 else "SPOEFG", h, n, rng, all_tags=(k % 4 == 0))
+    # ---- decoys: a true occurrence inside a word followed by a better-placed FALSE candidate that shares
+    #      only its first character(s) with the needle (and the other way round) ----
+    for k in range(nbase // 6):
+        cfg = rand_cfg(rng)
+        word = [rng.choice([ord("f"), ord("o"), ord("x"), ord("b")]) for _ in range(rng.randint(2, 4))]
+        pre = [rng.choice([ord("x"), ord("y"), ord("q")]) for _ in range(rng.randint(1, 3))]
+        sep = rng.choice([32, 47, 45, 95])
+        cut = rng.randint(1, len(word) - 1)
+        decoy = word[:cut] + [ord("z")]
+        if rng.random() < 0.5:
+            h = pre + word + [sep] + decoy
+        else:
+            h = decoy + [sep] + pre + word + [sep] + decoy
+        if rng.random() < 0.3:
+            h = h + [0xE4]
+        emit(lines, cfg, "SFG", h, fix_needle(cfg, word), rng, all_tags=(k % 3 == 0))
     # ---- random ----
     for k in range(nbase // 3):
         cfg = rand_cfg(rng)
